@@ -4,6 +4,7 @@ package wm
 
 import (
 	"sort"
+	"strings"
 
 	"verifsim/internal/core"
 	"verifsim/internal/isa"
@@ -29,7 +30,14 @@ type taint struct {
 // only if what it corrupts reaches control flow or addressing; otherwise every
 // mismatch of v must lie inside the taint.
 func (t *taint) explainsClass(class string, v *core.Verdict) bool {
-	if baseClass(class) == "value-dependent-cycles" {
+	b := baseClass(class)
+	if strings.HasPrefix(b, "invariant:") {
+		// the coherence invariants hold whatever the program computes
+		return false
+	}
+	if b == "value-dependent-cycles" || (b != core.RegMismatch && b != core.MemMismatch) {
+		// a timing difference, a hang, a panic, a spurious or missing error:
+		// the corrupted value must reach control flow or an address
 		return t != nil && t.active && (t.all || t.ctrl)
 	}
 	return t.explains(v)
